@@ -87,13 +87,70 @@ def select(prop):
     return items
 
 
+_TREE_KEY = None
+
+
+def tree_key():
+    """content hash of everything a verdict depends on: /repo's exponax sources and /verif's engine, specs, contracts,
+    lemmas.  Results of (contract, case) items are cached under this key, so the checks of different properties do
+    not re-prove the shared obligations; any edit of any of these files changes the key (the cache can never mask it)."""
+    global _TREE_KEY
+    if _TREE_KEY is None:
+        h = hashlib.sha256()
+        roots = [os.path.join(REPO, "exponax")] + [os.path.join(VERIF, d) for d in ("symjnp", "specs", "contracts", "lemmas")]
+        for root in roots:
+            for dp, dn, fn in sorted(os.walk(root)):
+                dn.sort()
+                for f in sorted(fn):
+                    if f.endswith(".py"):
+                        p = os.path.join(dp, f)
+                        h.update(p.encode())
+                        h.update(open(p, "rb").read())
+        h.update(os.environ.get("SYMJNP_TIMEOUT_MS", "").encode())
+        _TREE_KEY = h.hexdigest()[:24]
+    return _TREE_KEY
+
+
+def _cache_path(item):
+    d = os.path.join(VERIF, ".cache", tree_key())
+    os.makedirs(d, exist_ok=True)
+    return os.path.join(d, hashlib.sha256(repr(item).encode()).hexdigest()[:32] + ".json")
+
+
+def _work_cached(item):
+    if os.environ.get("SYMJNP_NO_CACHE"):
+        return _work(item)
+    p = _cache_path(item)
+    if os.path.exists(p):
+        try:
+            r = json.load(open(p))
+            r["cached"] = True
+            return r
+        except Exception:
+            pass
+    r = _work(item)
+    if not r["error"] and all(o["status"] == "discharged" for o in r["obligations"]):
+        tmp = p + f".{os.getpid()}.tmp"
+        json.dump(r, open(tmp, "w"), default=str)
+        os.replace(tmp, p)  # only fully discharged items are cached: anything else is always re-examined
+    return r
+
+
 def run_items(items, jobs=None):
     jobs = jobs or min(16, os.cpu_count() or 4)
+    tree_key()
+    # prune caches of other trees
+    cdir = os.path.join(VERIF, ".cache")
+    if os.path.isdir(cdir):
+        import shutil
+        for d in os.listdir(cdir):
+            if d != tree_key():
+                shutil.rmtree(os.path.join(cdir, d), ignore_errors=True)
     if len(items) <= 1 or jobs == 1:
-        return [_work(it) for it in items]
+        return [_work_cached(it) for it in items]
     ctx = mp.get_context("fork")
     with ctx.Pool(jobs, maxtasksperchild=40) as pool:
-        return pool.map(_work, items, chunksize=1)
+        return pool.map(_work_cached, items, chunksize=1)
 
 
 # ----------------------------------------------------------------------- known findings
@@ -184,6 +241,9 @@ def check(prop, tier="quick", seed=0):
                                    "discharged": sum(1 for o in r["obligations"] if o["status"] == "discharged"),
                                    "assumes": LM.LEMMAS[r["name"]].assumes} for r in lem},
             "paths_explored": sum(r["paths"] for r in results),
+            "items": len(items),
+            "items_reused_from_same_tree_cache": sum(1 for r in results if r.get("cached")),
+            "tree_key": tree_key(),
             "refuted": len(refuted), "undecided": len(unknown), "tool_errors": len(errors),
             "known_findings_reported": sorted(known_hits),
             "vacuity_guards": sum(1 for o in obligations if o["kind"] == "vacuity"),
